@@ -298,6 +298,37 @@ def classify(o_orig, o_twin):
     return "continuation-differs:%s->%s" % (o_orig[0], o_twin[0])
 
 
+FLOAT_TOL = 1e-7
+NEAR = [0]  # number of observations accepted by the tolerance (reported in coverage)
+
+
+def same_obs(a, b):
+    """exact equality, or suggestions whose float hyperparameters agree to FLOAT_TOL (get_params/set_params of the GP
+    searchers round-trips the surrogate parameters through their encoding and is exact only up to an ulp)"""
+    if a == b:
+        return True
+    if a[0] != "suggest" or b[0] != "suggest" or len(a) != len(b) or a[:3] != b[:3] or a[4:] != b[4:]:
+        return False
+    ca, cb = a[3], b[3]
+    if ca is None or cb is None or len(ca) != len(cb):
+        return False
+    for (ka, va), (kb, vb) in zip(ca, cb):
+        if ka != kb:
+            return False
+        if va == vb:
+            continue
+        try:
+            fa, fb = float(va), float(vb)
+        except ValueError:
+            return False
+        if "." not in va and "e" not in va.lower():
+            return False  # integers must agree exactly
+        if not abs(fa - fb) <= FLOAT_TOL * max(1.0, abs(fa), abs(fb)):
+            return False
+    NEAR[0] += 1
+    return True
+
+
 def run_twin(tw, events, obs_orig):
     """returns (steps compared, None) or (steps, (clause, what, step index))"""
     n = 0
@@ -307,7 +338,7 @@ def run_twin(tw, events, obs_orig):
                        "restored twin (driver state diverged)" % (ev,), i)
         o, _ = tw.step(ev)
         n += 1
-        if o != obs_orig[i]:
+        if not same_obs(obs_orig[i], o):
             return n, (classify(obs_orig[i], o), "step %d event %r: original %r, restored %r" % (i, ev, obs_orig[i], o), i)
     return n, None
 
